@@ -32,7 +32,18 @@ RULE = ("CBOR: every length 0..300 plus 65534..65537 and 70000, truncations and 
         "after the header, one letter, letters only, in five case patterns (lower, UR:BYTES/… upper, scheme upper only, rest "
         "upper only, alternating) through BCURSingle.parse, BCURMulti.parse, _parse_bcur_helper, bcur_decode; header fields "
         "(58-character checksum, payload) of every class through the charset check. Expectations: the module's own bc32 decoder. "
-        "Generators build every string with the reference codecs of the module, not with the library.")
+        "Generators build every string with the reference codecs of the module, not with the library. Entry-point audit: "
+        "LENIENT decoders - a character outside the alphabet (1 b i o - _ space . NUL 0xff) at a data / checksum position read as "
+        "an integer u (-1 as str.find gives, 0, 31, 32.., 255, ord(c), -2, 2^30) with the six neighbouring symbols SOLVED over "
+        "GF(2) so that the polymod is right under that reading (bc32decode direct; BCUR strings whose lenient reading is the CBOR "
+        "wrapping of other data with the matching digest field, through bcur_decode, BCURSingle.parse, BCURMulti.parse), "
+        "look-alike substitutions (0->o, l->1/i, 6->b, q->anything) in payload text and digest field; wrong digest fields that "
+        "are damaged, prefix-equal, shorter / longer, of the bare payload; uses_only_bech32_chars called directly incl. newline "
+        "and its siblings at either end (fixed 82bf818); parts cut at ARBITRARY places (unequal, one character, empty) with a "
+        "case pattern and white space PER PART; the tampered part being the first / second / last; every callable with its "
+        "default arguments, positionally and by keyword (bcur_decode(text), constructors, encode()), returned lists edited and "
+        "the object asked again, argument lists compared after the call, refused call then the good one; CBOR wrappers as a "
+        "matrix prefix width x declared length x bytes present (declared 0 with bytes present) against an own decoder.")
 TRUSTED = ["hashlib (sha256) — a universally quantified function in the theorems",
            "binascii base64 wrapping of BCURSingle/BCURMulti (payloads are byte strings in the model)",
            "type checks (`type(x) is not str`, list/tuple) are evaluated on the implementation only (predicates str_types, str_types_strict)",
@@ -977,24 +988,58 @@ def p_foreign_fields(chk, pay, y):
     return None
 
 
+def digest_variant(payload, variant, pos):
+    """a digest field that is NOT the bc32 text of sha256(CBOR wrapping): 0 one character replaced (bc32 checksum wrong);
+    1 / 2 valid bc32 text of the digest with its last / first byte changed; 3 / 4 valid bc32 text of the digest cut to 31
+    bytes / extended to 33; 5 of no bytes at all; 6 of the digest of the bare payload (no CBOR header); 7 the payload
+    text itself"""
+    dg = hashlib.sha256(ref_cbor(payload)).digest()
+    if variant == 0:
+        return _flip("/" + ref_bc32(dg), pos, 1 + pos % 30)[1:]
+    return [None, ref_bc32(dg[:-1] + bytes([dg[-1] ^ (1 + pos % 255)])), ref_bc32(bytes([dg[0] ^ (1 + pos % 255)]) + dg[1:]),
+            ref_bc32(dg[:31]), ref_bc32(dg + b"\x00"), ref_bc32(b""), ref_bc32(hashlib.sha256(payload).digest()),
+            ref_bc32(ref_cbor(payload))][variant]
+
+
+def p_digest_field(payload, variant, pos, y):
+    """a right payload text under a wrong digest field is refused by every parser and by bcur_decode"""
+    enc, chk = ref_bc32(ref_cbor(payload)), ref_chk(payload)
+    bad = digest_variant(payload, variant, pos)
+    if bad == chk:
+        return None
+    for c in (bad, bad.upper()):
+        if not _refused(bcur.bcur_decode, enc, c):
+            return f"bcur_decode accepts the digest text {c[:64]!r} (variant {variant}) for data with digest text {chk[:64]!r}"
+    y = max(1, min(y, len(enc)))
+    cl = -(-len(enc) // y)
+    y = -(-len(enc) // cl)
+    sets = [[f"ur:bytes/{bad}/{enc}"], [f"ur:bytes/1of1/{bad}/{enc}"],
+            [f"ur:bytes/{i + 1}of{y}/{bad}/{enc[i * cl:(i + 1) * cl]}" for i in range(y)]]
+    for strings in sets:
+        if len(strings) == 1 and _exc(bcur.BCURSingle.parse, strings[0])[1] is None:
+            return f"BCURSingle.parse accepts a wrong digest field (variant {variant}): {strings[0][:80]!r}"
+        if _exc(bcur.BCURMulti.parse, strings)[1] is None:
+            return f"BCURMulti.parse accepts {len(strings)} part(s) with a wrong digest field (variant {variant})"
+    return None
+
+
 def p_charset(t):
     """uses_only_bech32_chars called directly equals a per-character test; _parse_bcur_helper never hands on a field
     that contains a character outside the alphabet"""
     t = T(t)
     want = all(_legal(c) for c in t)
-    note = " (regex `$` before a trailing newline)" if t.endswith("\n") and all(_legal(c) for c in t[:-1]) else ""
     got, e = _exc(bech32.uses_only_bech32_chars, t)
     if e is not None:
         return f"uses_only_bech32_chars({t[:60]!r}) raises {type(e).__name__}"
     if type(got) is not bool or got != want:
-        return f"uses_only_bech32_chars({t[:60]!r}) is {got!r}, expected {want}{note}"
+        return f"uses_only_bech32_chars({t[:60]!r}) is {got!r}, expected {want}"
     strings = [f"ur:bytes/{t}", f"ur:bytes/1of2/{'q' * 58}/{t}", f"ur:bytes/{'q' * 58}/{t}"]
     if len(t) == 58:
         strings += [f"ur:bytes/1of2/{t}/q", f"ur:bytes/{t}/q"]
     for s in strings:
         h, e = _exc(bcur._parse_bcur_helper, s)
         if e is None and any(c not in B32 for c in h[0] + (h[1] or "")):
-            return f"_parse_bcur_helper({s[:80]!r}) returns a field with a character outside the alphabet{note}"
+            return f"_parse_bcur_helper({s[:80]!r}) returns a field with a character outside the alphabet"
     return None
 
 
@@ -1156,7 +1201,7 @@ def p_entry(payload, other, chunk):
     return None
 
 
-PROPS = {"foreign_fields": p_foreign_fields, "charset": p_charset, "multi_free": p_multi_free, "cbor_dec": p_cbor_dec,
+PROPS = {"digest_field": p_digest_field, "foreign_fields": p_foreign_fields, "charset": p_charset, "multi_free": p_multi_free, "cbor_dec": p_cbor_dec,
          "entry": p_entry,
          "cbor_rt": p_cbor_rt, "convertbits_rt": p_convertbits_rt, "bc32_rt": p_bc32_rt, "bc32_sub": p_bc32_sub,
          "multi_rt": p_multi_rt, "multi_select": p_multi_select, "multi_tamper": p_multi_tamper,
@@ -1750,6 +1795,19 @@ def entrypoints(ctx):
                             if r.random() < 0.25 and ascii_(c2 + p2):
                                 yield ("corr", "multi_parse_str", [[f"ur:bytes/1of1/{c2}/{p2}".encode()]])
                                 yield ("corr", "bcur_decode", [p2.encode(), [c2.encode()]])
+    # ---- a right payload text under a wrong digest field (damaged, prefix-equal, shorter / longer, of other bytes)
+    for n in ((0, 1, 24, 100) if quick else (0, 1, 23, 24, 60, 100, 255, 256, 500)):
+        payload = ctx.rbytes(n)
+        enc = ref_bc32(ref_cbor(payload))
+        for variant in range(8):
+            for pos in ((r.randrange(58),) if variant else sorted({0, 51, 52, 57, r.randrange(58)})):
+                ctx.label("digest-field/variant%d" % variant)
+                y = r.choice([1, 2, 3])
+                yield ("prop", "digest_field", [payload, variant, pos, y])
+                bad = digest_variant(payload, variant, pos)
+                yield ("corr", "bcur_decode", [enc.encode(), [bad.encode()]])
+                yield ("corr", "multi_parse_str", [[f"ur:bytes/1of1/{bad}/{enc}".encode()]])
+                yield ("corr", "single_parse_str", [f"ur:bytes/{bad.upper()}/{enc.upper()}".encode()])
     # ---- the charset test called directly, and what the header parser hands on
     dig, let = "".join(B32[i] for i in _DIG), "".join(B32[i] for i in _LET)
     texts = ["", "q", "Q", "qQ", dig, let, let.upper(), B32, B32.upper(), "q" * 58, "2" * 58]
@@ -1760,11 +1818,14 @@ def entrypoints(ctx):
                 texts.append(base[:i] + ch + base[i + 1:])
             texts.append(base + ch)
         texts += [ch, ch * 3]
+    # a regex `$` also matches before ONE trailing newline (fixed: 82bf818): newline and its siblings at either end / inside
+    for k in (0, 1, 57, 58):
+        base = "".join(r.choice(B32) for _ in range(k))
+        for nl in ("\n", "\r", "\x0b", "\x0c", "\r\n", "\n\n", "\x1c", "\x85"):
+            texts += [base + nl, nl + base, base[:k // 2] + nl + base[k // 2:], base.upper() + nl]
     for t in texts:
-        if t.endswith("\n") and all(_legal(c) for c in t[:-1]):
-            ctx.label("charset/skipped-known-finding-trailing-newline")      # K-C20-charset-trailing-newline
-            continue
-        ctx.label("charset/" + ("legal" if all(_legal(c) for c in t) else "foreign"))
+        ctx.label("charset/" + ("legal" if all(_legal(c) for c in t) else "trailing-newline" if t.endswith("\n") and
+                                all(_legal(c) for c in t[:-1]) else "foreign"))
         yield ("prop", "charset", [_l1(t)])
         if ascii_(t) and r.random() < (0.3 if quick else 1):
             yield ("corr", "parse_helper_str", [f"ur:bytes/{t}".encode()])
